@@ -209,7 +209,7 @@ func C13(r *core.Report) {
 	c13Downgrade(r, scope)
 	c13ExhaustionExits(r, scope)
 	r.Floor("C13.R1", 4)
-	r.Floor("C13.R2", 25)
+	r.Floor("C13.R2", 15)
 	r.Floor("C13.R3", 40)
 }
 
